@@ -875,6 +875,24 @@ pub fn stress_shapes(thorough: bool) -> Vec<(String, Vec<u8>)> {
         b.extend(frame_bytes(&[pal, simple_layer(0, LayerKind::Image, 1), image_cel(0, wd, ht, px, Some(9))], 1));
         v.push((format!("bomb-cel-indexed-{}-index", name), b));
     }
+    // deflate-bomb tilesets of 8 Mi one-pixel tiles, declared consistently (per-tile bookkeeping must not dwarf the
+    // pixel data), alone and followed by user data chunks
+    for (name, depth) in [("indexed", 8u16), ("gray", 16)] {
+        let count = 8u32 << 20;
+        let ts = Tileset { id: 0, flags: 2, count, tw: 1, th: 1, base_index: 1, name: String::new(), ext: (0, 0), pixels: vec![0u8; count as usize * (depth as usize / 8)] };
+        let tsc = chunk(tileset_chunk(&ts, 9, &mut None));
+        let pal = chunk(palette_chunk(&NewPalette { first: 0, entries: vec![PalEntry { rgba: [0, 0, 0, 255], name: None }] }, &mut None));
+        let ud = |t: &str| chunk(user_data_chunk(&UserData { text: Some(t.into()), color: None }));
+        for with_ud in [false, true] {
+            let mut chunks = vec![pal.clone(), tsc.clone()];
+            if with_ud {
+                chunks.extend([ud("tileset"), ud("tile 0"), ud("tile 1")]);
+            }
+            let mut b = header_bytes(1, 4, 4, depth);
+            b.extend(frame_bytes(&chunks, 1));
+            v.push((format!("bomb-tileset-8Mi-1x1-tiles-{}{}", name, if with_ud { "-then-user-data" } else { "" }), b));
+        }
+    }
     // tilemap bombs with 8 and 16 bits per tile (refused today; a reader that accepts them must not turn each
     // inflated byte into a much larger in-memory tile)
     for bits in [8u16, 16] {
